@@ -288,7 +288,10 @@ class RandomEviction(CacheEvictionPolicy):
         Args:
             seed: Random seed for reproducibility.
         """
-        self._keys: set[str] = set()
+        # Insertion-ordered (dict), not a set: the iteration order of a set of
+        # strings depends on PYTHONHASHSEED, which made the seeded choice differ
+        # from one interpreter to the next.
+        self._keys: dict[str, None] = {}
         self._rng = random.Random(seed)
 
     def on_access(self, key: str) -> None:
@@ -296,18 +299,18 @@ class RandomEviction(CacheEvictionPolicy):
 
     def on_insert(self, key: str) -> None:
         """Track key."""
-        self._keys.add(key)
+        self._keys[key] = None
 
     def on_remove(self, key: str) -> None:
         """Remove key from tracking."""
-        self._keys.discard(key)
+        self._keys.pop(key, None)
 
     def evict(self) -> str | None:
         """Return a random key."""
         if not self._keys:
             return None
         key = self._rng.choice(list(self._keys))
-        self._keys.discard(key)
+        self._keys.pop(key, None)
         return key
 
     def clear(self) -> None:
